@@ -112,7 +112,21 @@ FEATURES = {
     "alias-cycle": featgen.wrap({"A": OBJ({"g": S("Grp")}), "Cfg": {"type": "object", "additionalProperties": S("Grp")}, "Grp": {"type": "array", "items": S("Cfg")}}, body="A", resp="A"),
     "cycle": featgen.wrap({"A": OBJ({"a": S("A"), "l": {"type": "array", "items": S("A")}})}, body="A", resp="A"),
     "union": featgen.wrap({"A": OBJ({"x": {"type": "string"}}), "B": OBJ({"n": {"type": "integer"}}), "U": {"oneOf": [S("A"), S("B")]}}, body="U", resp="U"),
+    # unions whose member leads back to the union: the variant is `V(Box<T>)`, and so must the helper constructors' payloads be
+    "union-cycle": featgen.wrap({"Literal": OBJ({"v": {"type": "integer"}}), "Negation": OBJ({"operand": S("Expr")}),
+                                 "Pair": OBJ({"left": S("Expr"), "right": S("Expr")}, ["left"]),
+                                 "Expr": {"oneOf": [S("Literal"), S("Negation"), S("Pair")]}}, body="Expr", resp="Expr"),
+    "union-cycle-any": featgen.wrap({"Leaf": OBJ({"name": {"type": "string"}}, ["name"]), "Node": OBJ({"kids": {"type": "array", "items": S("Tree")}, "first": S("Tree")}),
+                                     "Tree": {"anyOf": [S("Leaf"), S("Node")]}}, body="Tree", resp="Tree"),
+    # enum-typed parameters in every location (the server builds header members with `str::parse`)
+    "enum-params": featgen.wrap({"A": OBJ({"x": {"type": "string"}})}, resp="A", method="get",
+                                params=[{"name": "X-Mode", "in": "header", "required": True, "schema": {"type": "string", "enum": ["fast", "Slow"]}},
+                                        {"name": "X-Level", "in": "header", "schema": {"type": "string", "enum": ["lo", "HI", "Mid-1"]}},
+                                        {"name": "sort", "in": "query", "schema": {"type": "string", "enum": ["asc", "Desc"]}},
+                                        {"name": "kind", "in": "path", "required": True, "schema": {"type": "string", "enum": ["cat", "Dog"]}}]),
 }
+# features whose interesting cell is a non-default enum mode
+ENUM_MODES = ("merge", "preserve", "relaxed")
 
 
 def prepare(case):
@@ -179,7 +193,9 @@ def e_cases(ctx):
             out.append(gen_case(FEATURES[f], mode, cfg))
     for f in FEATURES:
         for mode in featgen.MODES:
-            out.append(gen_case(FEATURES[f], mode, {"vis": "public", "enum_mode": "merge"}))
+            for em in ENUM_MODES:
+                out.append(gen_case(FEATURES[f], mode, {"vis": "public", "enum_mode": em}))
+            out.append(gen_case(FEATURES[f], mode, {"vis": "crate", "enum_mode": "relaxed", "no_helpers": True}))
     out += array_e_cases(ctx)
     # random documents of the feature grammar x random flags
     for _ in range(250 if ctx.quick else 2000):
@@ -236,6 +252,10 @@ def arena(ctx, n_random, per_round=120):
         for mode in (["client-mod", "server-mod"] if ctx.quick else featgen.MODES):
             cases.append(gen_case(FEATURES[f], mode, {"vis": "public", "enum_mode": "merge", "builders": f == "param-clash"}, code=True))
     cases += array_a_cases(ctx)
+    for f in ("enum-params", "union-cycle", "union-cycle-any"):
+        for mode in ("client-mod", "server-mod"):
+            for em in ("relaxed", "preserve"):
+                cases.append(gen_case(FEATURES[f], mode, {"vis": "public", "enum_mode": em}, code=True))
     cases.append(gen_case(FEATURES["plain"], "client-mod", {"vis": "file", "enum_mode": "merge"}, code=True))
     cases.append(gen_case(FEATURES["plain"], "types", {"vis": "file", "enum_mode": "merge"}, code=True))
     for _ in range(n_random):
